@@ -223,7 +223,7 @@ class StretchyTreeMatcher:
         if is_generic:
             return self.deep_find_match_generic(ins_node, std_node, check_meta, use_previous=use_previous)
         else:  # this means that the node is clearly commutative
-            return self.deep_find_match_binflex(ins_node, std_node, False, use_previous=use_previous)
+            return self.deep_find_match_binflex(ins_node, std_node, check_meta, use_previous=use_previous)
 
     # noinspection PyMethodMayBeStatic
     def binflex_helper(self, case_left, case_right, new_mappings, base_mappings, use_previous=None):
